@@ -52,6 +52,9 @@ func c13EncoderConforms(c *hx.Ctx, codec int, im c02Img, tag string) {
 		return
 	}
 	got, pred, err := c13RefDecode(enc)
+	if im.W*im.H*im.NC <= 48 {
+		c13SpecStream(c, enc, "real-encoder")
+	}
 	in := c02Input(codec, im)
 	in["effective_predictor"] = pred
 	if err == nil {
@@ -81,6 +84,9 @@ func c13EncoderConforms(c *hx.Ctx, codec int, im c02Img, tag string) {
 	}
 }
 
+// c13ForceTd, when non-nil, fixes the per-component table destinations of the next c13RandomCfg call.
+var c13ForceTd []int
+
 func c13RandomCfg(c *hx.Ctx, im c02Img, pred int, tableKind int) c13Cfg {
 	cfg := c13Cfg{Pred: pred, Td: make([]int, im.NC), Tables: map[int]c13Table{}, CompIDs: make([]int, im.NC)}
 	base := c.R.Pick([]int{1, 1, 0, 7, 82}) // 'R','G','B'-like ids also occur in the wild
@@ -97,6 +103,10 @@ func c13RandomCfg(c *hx.Ctx, im c02Img, pred int, tableKind int) c13Cfg {
 		for k := range cfg.Td {
 			cfg.Td[k] = c.R.Intn(4)
 		}
+	}
+	if c13ForceTd != nil {
+		copy(cfg.Td, c13ForceTd)
+		c13ForceTd = nil
 	}
 	cfg.DHTAfterSOF = c.R.Bool()
 	cfg.Extras = c.R.Intn(3) == 0
@@ -152,6 +162,9 @@ func c13DecoderConforms(c *hx.Ctx, sv1 bool, im c02Img, pred int, tableKind int,
 		panic("c13 reference codec is inconsistent: " + err.Error())
 	} else if same, where := c13SameSamples(im, back); !same {
 		panic("c13 reference codec is inconsistent: " + where)
+	}
+	if im.W*im.H*im.NC <= 48 && !sv1 {
+		c13SpecStream(c, stream, "reference-encoder")
 	}
 	name := "jll"
 	if sv1 {
@@ -340,6 +353,21 @@ func c13SelectorProbe(c *hx.Ctx) {
 	}
 }
 
+// c13SpecStream: op t81-stream-dec — the Lean specification's stream decoder (Spec/T81HStream.lean) against the
+// Go reference decoder on the same bytes (two independent transcriptions of Annex B + Annex H).
+func c13SpecStream(c *hx.Ctx, stream []byte, tag string) {
+	im, _, err := c13RefDecode(stream)
+	if err != nil {
+		return // the Go reference additionally checks the sample range; compared only where it accepts
+	}
+	var pl []string
+	for k := 0; k < im.NC; k++ {
+		pl = append(pl, c02IntsStr(im.S[k]))
+	}
+	c.Case("t81-stream-dec "+hx.Hex(stream), fmt.Sprintf("ok %d %d %d %s", im.W, im.H, im.P, strings.Join(pl, "|")))
+	c.Count("spec-stream:" + tag)
+}
+
 func c13(c *hx.Ctx) {
 	c.Rule = "evaluations: A = (real encoder, predictor 0..7 / SV1) x image -> independent T.81 decoder must return the source; " +
 		"B = independent T.81 encoder over (predictor 1..7, P 2..16, components 1/3, Td per component 0..3, tables {extended standard, " +
@@ -358,6 +386,48 @@ func c13(c *hx.Ctx) {
 		c13DecoderConforms(c, false, w, pred, 0, "witness")
 	}
 	c13DecoderConforms(c, true, w, 1, 0, "witness")
+	// per-component DIFFERENT tables on different destinations (a decoder using component 0's table for
+	// all components fails here): 3 components, Td permutations, random canonical / optimal tables per destination
+	for _, td := range [][]int{{0, 1, 2}, {3, 1, 0}, {1, 0, 1}, {2, 3, 2}, {0, 1, 0}} {
+		for _, p := range []int{8, 12, 16} {
+			for _, tk := range []int{2, 1} {
+				im := c02Content(c.R, c.R.Range(2, 8), c.R.Range(2, 8), 3, p, "noise")
+				// make the three components statistically different so that their optimal tables differ
+				for i := range im.S[1] {
+					im.S[1][i] = (im.S[1][i] & 3) + 1<<uint(p-1)
+					im.S[2][i] = 0
+				}
+				c13ForceTd = td
+				c13DecoderConforms(c, false, im, 1, tk, "per-component-tables")
+				c13ForceTd = td
+				c13DecoderConforms(c, false, im, 4, tk, "per-component-tables")
+				c13ForceTd = td
+				c13DecoderConforms(c, true, im, 1, tk, "per-component-tables")
+			}
+		}
+	}
+	// P=16 with differences of exactly -32768 / +32768 (category 16, no additional bits): a codec that
+	// writes or reads 16 extra bits for SSSS=16 (even symmetrically) fails against the reference
+	for _, rowsCols := range [][2]int{{4, 1}, {1, 4}, {4, 3}, {2, 2}} {
+		for nc := 1; nc <= 3; nc += 2 {
+			im := c02NewImg(rowsCols[0], rowsCols[1], nc, 16)
+			for k := 0; k < nc; k++ {
+				for i := range im.S[k] {
+					if (i+k)%2 == 1 {
+						im.S[k][i] = 32768
+					}
+				}
+			}
+			c13EncoderConforms(c, 8, im, "cat16-exact")
+			c13EncoderConforms(c, 1, im, "cat16-exact")
+			c13EncoderConforms(c, 4, im, "cat16-exact")
+			for tk := 0; tk < 3; tk++ {
+				c13DecoderConforms(c, true, im, 1, tk, "cat16-exact")
+				c13DecoderConforms(c, false, im, 1, tk, "cat16-exact")
+				c13DecoderConforms(c, false, im, 4, tk, "cat16-exact")
+			}
+		}
+	}
 	// A: every P x codec x class
 	for p := 2; p <= 16; p++ {
 		for codec := 0; codec <= 8; codec++ {
